@@ -1090,8 +1090,6 @@ func (t *Tree) Compile(file string, args []string, out io.Writer) (err error) {
 			label++
 			printBegin()
 			elements := slices.Collect(n.Iterator())
-			elements[0].SetParentDetect(n.ParentDetect())
-			elements[0].SetParentMultipleKey(n.ParentMultipleKey())
 			printSave(ok)
 			for _, element := range elements[:len(elements)-1] {
 				next := label
@@ -1155,8 +1153,6 @@ func (t *Tree) Compile(file string, args []string, out io.Writer) (err error) {
 			printBegin()
 			printSave(ok)
 			element := n.Front()
-			element.SetParentDetect(n.ParentDetect())
-			element.SetParentMultipleKey(n.ParentMultipleKey())
 			compile(element, ko)
 			printRestore(ok)
 			printEnd()
@@ -1166,8 +1162,6 @@ func (t *Tree) Compile(file string, args []string, out io.Writer) (err error) {
 			printBegin()
 			printSave(ok)
 			element := n.Front()
-			element.SetParentDetect(n.ParentDetect())
-			element.SetParentMultipleKey(n.ParentMultipleKey())
 			compile(element, ok)
 			printJump(ko)
 			printLabel(ok)
@@ -1181,8 +1175,6 @@ func (t *Tree) Compile(file string, args []string, out io.Writer) (err error) {
 			printBegin()
 			printSave(qko)
 			element := n.Front()
-			element.SetParentDetect(n.ParentDetect())
-			element.SetParentMultipleKey(n.ParentMultipleKey())
 			compile(element, qko)
 			printJump(qok)
 			printLabel(qko)
@@ -1198,8 +1190,6 @@ func (t *Tree) Compile(file string, args []string, out io.Writer) (err error) {
 			printBegin()
 			printSave(out)
 			element := n.Front()
-			element.SetParentDetect(n.ParentDetect())
-			element.SetParentMultipleKey(n.ParentMultipleKey())
 			compile(element, out)
 			printJump(again)
 			printLabel(out)
